@@ -246,7 +246,7 @@ def _export_json(obj: Any) -> dict | float | int | str | bool | None:
         for k, v in obj.items():
             if not isinstance(k, str):
                 raise NotImplementedError()
-            assert k not in ["__module__", "__name__"]
+            assert k not in ["__module__", "__name__", "__value__", "__dtype__"]
             result_dict[k] = _export_json(v)
         return result_dict
     # list / tuples / etc.
